@@ -165,7 +165,18 @@ pub fn run(tier: &str, only: Option<String>) -> i32 {
     if !skip_b {
         let st = par_items(&seqs, Some(120_000), &|_| {}, &|q: &Vec<usize>, st: &mut Stats| {
             let arg = q.iter().map(|c| c.to_string()).collect::<Vec<_>>().join(",");
-            let out = std::process::Command::new(&me).arg("C18-seq").arg(&arg).output().expect("spawn");
+            let mut ch = std::process::Command::new(&me)
+                .arg("C18-seq")
+                .arg(&arg)
+                .stdout(std::process::Stdio::piped())
+                .stderr(std::process::Stdio::piped())
+                .spawn()
+                .expect("spawn");
+            if bridge::rt::wait_with_timeout(&mut ch, std::time::Duration::from_secs(120)).is_none() {
+                st.violate(format!("C18 call-history process does not terminate calls={q:?}"), format!("seq:{q:?}"), json!({}));
+                return;
+            }
+            let out = ch.wait_with_output().expect("output");
             st.states += 1;
             let key = format!("seq:{q:?}");
             if !out.status.success() {
@@ -244,7 +255,11 @@ pub fn run(tier: &str, only: Option<String>) -> i32 {
             let mut schedules = 0u64;
             let mut harnesses = 0u64;
             for (out, mut ch) in children {
-                let status = ch.wait().expect("wait");
+                let limit = std::time::Duration::from_secs(if thorough { 4 * 3600 } else { 20 * 60 });
+                let Some(status) = bridge::rt::wait_with_timeout(&mut ch, limit) else {
+                    eprintln!("MACHINERY: schedule explorer did not finish within {limit:?}");
+                    return 2;
+                };
                 if !status.success() {
                     eprintln!("MACHINERY: schedule explorer died: {status}");
                     return 2;
